@@ -135,6 +135,7 @@ class SessionStateQuery(BaseQuery):
     config_op: Optional[config.Operation] = None
     is_transactional: bool = True
     globals: Optional[list[tuple[str, bool]]] = None
+    has_dml: bool = False
 
     in_type_data: Optional[bytes] = None
     in_type_id: Optional[bytes] = None
